@@ -42,3 +42,74 @@ func VerifC03Interpolate() {
 	v.SymOrder(false)
 	v.Assert(r1 == r2, "C03: the value a pipeline parameter placeholder expands to depends on map iteration order")
 }
+
+// VerifC04YAMLPipeline (C04, YAML mode): pipeline files with empty or null pieces — `inputs: [~]`, `- {}`,
+// an input or language entry with no member, `languages: [~]`, null blocks — loaded with PipelineFromFile and
+// taken through the steps that need no file system (parameter interpolation, OutputLanguages, jenniesConfig):
+// an error or a result, never a panic.
+func VerifC04YAMLPipeline() {
+	obj := func(kv ...any) v.J {
+		o := v.J{Kind: v.JObject}
+		for i := 0; i+1 < len(kv); i += 2 {
+			o.Keys = append(o.Keys, kv[i].(string))
+			switch x := kv[i+1].(type) {
+			case v.J:
+				o.Vals = append(o.Vals, x)
+			case string:
+				o.Vals = append(o.Vals, v.J{Kind: v.JString, Str: x})
+			}
+		}
+		return o
+	}
+	null := v.J{Kind: v.JNull}
+	arr := func(items ...v.J) v.J { return v.J{Kind: v.JArray, Arr: items} }
+	var input v.J
+	switch v.Choose(6) {
+	case 0:
+		input = null
+	case 1:
+		input = obj()
+	case 2:
+		input = obj("jsonschema", null)
+	case 3:
+		input = obj("jsonschema", obj("path", "%dir%/x.json", "package", "p"))
+	case 4:
+		input = obj("if", "%cond%", "cue", obj("entrypoint", "%dir%"))
+	default:
+		input = obj("openapi", obj())
+	}
+	var lang v.J
+	switch v.Choose(5) {
+	case 0:
+		lang = null
+	case 1:
+		lang = obj()
+	case 2:
+		lang = obj("go", null)
+	case 3:
+		lang = obj("go", obj("package_root", "%root%"))
+	default:
+		lang = obj("typescript", obj(), "python", obj())
+	}
+	var output v.J
+	switch v.Choose(3) {
+	case 0:
+		output = null
+	case 1:
+		output = obj("directory", "%dir%/out", "languages", arr(lang))
+	default:
+		output = obj("directory", "out", "languages", arr(lang, lang), "templates_data", obj("k", "%root%"))
+	}
+	doc := obj("inputs", arr(input), "output", output, "parameters", obj("dir", "/d", "root", "r"))
+	p, err := PipelineFromFile(v.TempFile(v.JSONBytes(doc)), Parameters(map[string]string{"cond": "true"}))
+	if err != nil {
+		v.Reach("the loader rejected the file")
+		return
+	}
+	if _, err := p.OutputLanguages(); err != nil {
+		v.Reach("OutputLanguages returned an error")
+		return
+	}
+	_ = p.jenniesConfig()
+	v.Reach("the pipeline went through")
+}
